@@ -34,6 +34,7 @@ Proof.
         -- destruct r; cbn in E; try congruence. destruct ok; cbn in E; congruence.
         -- destruct r as [| |b sl ix]; try (cbn in E; congruence).
            destruct (negb (slot_ok && (b_slice s =? sl) && (b_index s =? ix))); [cbn in E; congruence|].
+           destruct (negb (shred_tag_ok s)); [cbn in E; congruence|].
            destruct (true && negb (Bool.eqb (b_last s) (is_last_slice rp b sl))); [cbn in E; congruence|].
            destruct (root_lookup (b, sl) (rp_roots rp)) as [root|] eqn:Hl; [|exfalso; apply (Hr b sl ix Hh); exact Hl].
            destruct (negb (b_root s =? root)); [cbn in E; congruence|]. destruct (negb sig_ok); [cbn in E; congruence|].
@@ -56,6 +57,7 @@ Proof.
       * destruct r; try apply Hign. destruct ok; [cbn; auto|apply Hign].
       * destruct r as [| |b sl ix]; try apply Hign.
         destruct (negb (slot_ok && (b_slice s =? sl) && (b_index s =? ix))); [apply Hign|].
+        destruct (negb (shred_tag_ok s)); [apply Hign|].
         destruct (true && negb (Bool.eqb (b_last s) (is_last_slice rp b sl))); [apply Hign|].
         destruct (root_lookup (b, sl) (rp_roots rp)) as [root|]; [|cbn; auto].
         destruct (negb (b_root s =? root)); [apply Hign|]. destruct (negb sig_ok); [apply Hign|].
@@ -91,6 +93,7 @@ Proof.
   - destruct r; try (exfalso; eapply Hign, Hin). destruct ok; exfalso; [eapply Hsend, Hin|eapply Hign, Hin].
   - destruct r as [| |b sl ix]; try (exfalso; eapply Hign, Hin).
     destruct (negb (slot_ok && (b_slice s =? sl) && (b_index s =? ix))); [exfalso; eapply Hign, Hin|].
+    destruct (negb (shred_tag_ok s)); [exfalso; eapply Hign, Hin|].
     destruct (true && negb (Bool.eqb (b_last s) (is_last_slice rp b sl))); [exfalso; eapply Hign, Hin|].
     destruct (root_lookup (b, sl) (rp_roots rp)) as [root|]; [|destruct Hin].
     destruct (negb (b_root s =? root)); [exfalso; eapply Hign, Hin|]. destruct (negb sig_ok); [exfalso; eapply Hign, Hin|].
